@@ -318,6 +318,16 @@ theorem scanBlock_sublist (s : Select) (b : Block) (os : List Obj) (h : decodeBl
     ∃ sel, scanBlock RU s b = some sel ∧ sel.Sublist os ∧ ∀ o ∈ sel, o ∈ os ∧ s.keep o = true :=
   ⟨os.filter s.keep, scanBlock_eq_filter s b os h, List.filter_sublist, fun o ho => by simpa using ho⟩
 
+/-- a whole file: the scan under any selection, any number of blocks, is the filter of the unfiltered scan -/
+theorem scanFile_eq_filter (s : Select) (bs : List Block) (os : List Obj) (h : decodeFile bs = some os) :
+    (bs.mapM (scanBlock RU s)).map List.flatten = some (os.filter s.keep) := by
+  unfold decodeFile at h
+  simp only [Option.map_eq_some_iff] at h
+  obtain ⟨r, hr, e⟩ := h
+  subst e
+  rw [mapM_filter _ _ s.keep _ _ hr (fun b os hb => scanBlock_eq_filter s b os hb)]
+  simp [List.filter_flatten]
+
 /-! ## non-vacuity -/
 example : scanBlock RU { way := fun w => w.id % 2 == 0 }
     { strings := ["", "k", "v"], groups := [.ways [{ id := 1, keys := some [1], vals := some [2], refs := some [5, 1] }, { id := 2 }, { id := 4, refs := some [] }]] } =
